@@ -1,0 +1,35 @@
+//go:build verif
+
+package confgen
+
+import (
+	"github.com/tableauio/tableau/proto/tableaupb"
+	"google.golang.org/protobuf/reflect/protoreflect"
+)
+
+// VerifFieldSeps returns the separators the sheet parser resolves for a field
+// (verification hook; compiled only with the "verif" build tag).
+func VerifFieldSeps(sp *sheetParser, fd protoreflect.FieldDescriptor) (sep, subsep string) {
+	field := sp.parseFieldDescriptor(fd)
+	defer field.release()
+	return field.sep, field.subsep
+}
+
+// VerifSheetParser is the exported alias of the sheet parser type.
+type VerifSheetParser = sheetParser
+
+// VerifFieldView returns the resolved option view of a field descriptor.
+func VerifFieldView(sp *sheetParser, fd protoreflect.FieldDescriptor) (opts *tableaupb.FieldOptions, sep, subsep string) {
+	field := sp.parseFieldDescriptor(fd)
+	o := &tableaupb.FieldOptions{
+		Name:   field.opts.Name,
+		Note:   field.opts.Note,
+		Key:    field.opts.Key,
+		Layout: field.opts.Layout,
+		Span:   field.opts.Span,
+		Prop:   field.opts.Prop,
+	}
+	sep, subsep = field.sep, field.subsep
+	field.release()
+	return o, sep, subsep
+}
